@@ -144,6 +144,10 @@ def run_property(prop, tier="quick", seed=0, repo_root=None, only=None):
                     n_dis += 1
                 elif r["status"] == "sat":
                     handle_refuted(ctx, pm, o, known, status)
+                elif r["status"] == "sat-relaxed":
+                    # candidate counter-model of a weakened query: a violation only if it replays
+                    if not handle_refuted(ctx, pm, o, known, status, candidate=True):
+                        status["undecided"].append(o.name)
                 elif r["status"] == "conflict":
                     status["errors"].append("solver disagreement on %s: %s" % (o.name, r["verdicts"]))
                 else:
@@ -264,7 +268,7 @@ def run_property(prop, tier="quick", seed=0, repo_root=None, only=None):
         ctx.cleanup()
 
 
-def handle_refuted(ctx, pm, o, known, status):
+def handle_refuted(ctx, pm, o, known, status, candidate=False):
     """a valid-expected obligation came back sat: known finding / replayed violation / unreplayed violation"""
     prop = ctx.prop
     r = o.result
@@ -272,7 +276,7 @@ def handle_refuted(ctx, pm, o, known, status):
     kf = [f for f in known.get("findings", []) if finding_matches(f, prop, o.name)]
     if kf:
         status["known"].append((kf[0], what))
-        return
+        return True
     replayed = None
     detail = None
     try:
@@ -282,6 +286,8 @@ def handle_refuted(ctx, pm, o, known, status):
     except Exception:
         detail = "replay crashed: " + traceback.format_exc(limit=4)
         replayed = None
+    if candidate and not replayed:
+        return False
     smt_path = None
     for run in r["runs"]:
         if run["verdict"] == "sat":
@@ -296,3 +302,4 @@ def handle_refuted(ctx, pm, o, known, status):
                    smt2=smt_path, replayed_on_real_code=bool(replayed), replay_detail=detail)
     path = write_replay(ctx, o.name, payload)
     status["violations"].append((what, path, bool(replayed)))
+    return True
